@@ -98,8 +98,11 @@ def monitor_factory(ctx):
             return mon, False
         env = study.environment
         sigma0 = {}
+        # what the specification calls a label is a label, wherever the environment filed it
+        spec_labels = spec["env"].get("labels", {})
         for k, v in env.substitutions.items():
-            sigma0[k] = str(v.value)
+            if k not in spec_labels:
+                sigma0[k] = str(v.value)
         for k, d in env.dependencies.items():
             sigma0[k] = d.value
         orig = {s["name"]: s for s in spec["study"]}
@@ -131,9 +134,11 @@ def monitor_factory(ctx):
                     sigma[p["key"] + ".name"] = p["name"]
             # labels: their value *as the specification defines it*, with its own
             # tokens resolved against the values in force for this run
-            spec_labels = spec["env"].get("labels", {})
             for k, v in env.labels.items():
-                sigma[k] = simultaneous(str(spec_labels.get(k, v.value)), sigma)
+                if k not in spec_labels:
+                    sigma[k] = simultaneous(str(v.value), sigma)
+            for k, v in spec_labels.items():
+                sigma[k] = simultaneous(str(v), sigma)
             sigma["WORKSPACE"] = rec.workspace.value
             # workspace references
             dep = orig[stname]["run"].get("depends", [])
@@ -146,7 +151,7 @@ def monitor_factory(ctx):
                     sigma[other + ".workspace"] = os.path.join(root, other)
                 else:
                     cand = [n for n in names if n in dag.values and all(
-                        rec.params.get(k, v) == v for k, v in dag.values[n].params.items())]
+                        str(rec.params.get(k, v)) == str(v) for k, v in dag.values[n].params.items())]
                     if len(cand) == 1:
                         sigma[other + ".workspace"] = dag.values[cand[0]].workspace.value
             if not params and any(k in pkeys for k in []):
